@@ -179,6 +179,44 @@ def text_u64_parse(interp, args, info):
     return err(Tok("O", "parse_int_error"))
 
 
+def _decode_version(prog, it, v):
+    """(major, minor, patch, pre, build) of a Version the entry point built itself (numbers as ints, identifiers as
+    ('n', int) / ('s', text)); None when the value is the opaque result of the grammar call or anything not concrete"""
+    from .interp import StrV
+    v = it.strip(v)
+    if not (isinstance(v, Adt) and v.name == "Version"):
+        return None
+    names = prog.field_names("Version")
+    f = dict(zip(names, v.fields))
+    out = []
+    for fn in ("major", "minor", "patch"):
+        x = f[fn]
+        if isinstance(x, bool) or not isinstance(x, int):
+            return None
+        out.append(x)
+    for fn in ("pre_release", "build"):
+        lst = it.strip(f[fn])
+        if not isinstance(lst, ListV):
+            return None
+        ids = []
+        for x in lst.items:
+            x = it.strip(x)
+            if not (isinstance(x, Adt) and x.name == "Identifier" and x.fields):
+                return None
+            kind = prog.variant_name("Identifier", x.variant)
+            p0 = it.strip(x.fields[0])
+            if kind == "Numeric" and isinstance(p0, int) and not isinstance(p0, bool):
+                ids.append(("n", p0))
+            elif kind == "AlphaNumeric" and isinstance(p0, TextV):
+                ids.append(("s", p0.bytes().decode("utf-8", "replace")))
+            elif kind == "AlphaNumeric" and isinstance(p0, StrV):
+                ids.append(("s", p0.s))
+            else:
+                return None
+        out.append(tuple(ids))
+    return tuple(out)
+
+
 _ST = {}
 
 
@@ -238,6 +276,8 @@ def _worker(chunk):
             r = it.call_body("Version::parse", [TextV(text, 0, len(text), "str")])
             st = "ok" if (isinstance(r, Adt) and r.variant == 0) else "err"
             detail = None
+            if st == "ok":
+                detail = _decode_version(prog, it, r.fields[0])
         except Panic as p:
             st, detail = "panic", str(p)
         except Inconclusive as e:
